@@ -499,7 +499,7 @@ func (se *SpecEnv) selector(e SSelector) Val {
 		if _, ok := pt.Underlying().(*types.Struct); ok {
 			fi, ok := se.findField(pt, e.Name)
 			if !ok {
-				sfail("no field %s in %s", e.Name, pt)
+				sgone("no field %s in %s", e.Name, pt)
 			}
 			v := se.load(fi.T, ptrAddr(x).plusSub(fi.Off))
 			se.noteDeref(not(eq(x.L[0], "0")))
@@ -516,7 +516,7 @@ func (se *SpecEnv) selector(e SSelector) Val {
 	if _, ok := t.Underlying().(*types.Struct); ok {
 		fi, ok := se.findField(t, e.Name)
 		if !ok {
-			sfail("no field %s in %s", e.Name, t)
+			sgone("no field %s in %s", e.Name, t)
 		}
 		n := f.l.cells(fi.T)
 		return Val{T: fi.T, L: x.L[fi.Off : fi.Off+n]}
@@ -1318,13 +1318,13 @@ func (se *SpecEnv) addrOf(e SExpr) (Addr, types.Type) {
 			ba, bt := se.addrOf(e.X)
 			fi, ok := se.findField(bt, e.Name)
 			if !ok {
-				sfail("no field %s in %s", e.Name, bt)
+				sgone("no field %s in %s", e.Name, bt)
 			}
 			return ba.plusSub(fi.Off), fi.T
 		}
 		fi, ok := se.findField(pt, e.Name)
 		if !ok {
-			sfail("no field %s in %s", e.Name, pt)
+			sgone("no field %s in %s", e.Name, pt)
 		}
 		return ptrAddr(x).plusSub(fi.Off), fi.T
 	case SIndex:
@@ -1443,7 +1443,7 @@ func (se *SpecEnv) place(e SExpr) (placeAddr, types.Type, bool) {
 		}
 		fi, ok := se.findField(bt, e.Name)
 		if !ok {
-			sfail("no field %s in %s", e.Name, bt)
+			sgone("no field %s in %s", e.Name, bt)
 		}
 		na := base.plusSub(fi.Off)
 		if _, named := bt.(*types.Named); named {
